@@ -159,9 +159,12 @@ func (g *Gen) callbackContract(v ssa.Value) *Contract {
 		return nil
 	}
 	if p, ok := v.(*ssa.Parameter); ok {
-		return g.C.Callbacks[p.Name()]
+		if c := g.C.Callbacks[p.Name()]; c != nil {
+			return c
+		}
 	}
-	return nil
+	// callback * ...: every other call through a function value in this function
+	return g.C.Callbacks["*"]
 }
 
 // resultCallback: the contract a callee's contract attaches to a func-typed result
@@ -195,6 +198,11 @@ func (g *Gen) resultCallback(v ssa.Value) *Contract {
 }
 
 func (g *Gen) staticCall(st *State, f *ssa.Function, args []Val, resTy types.Type, pos token.Pos) Val {
+	if g.C != nil && g.C.HoldsLock && !g.inDefers && !g.quiet {
+		if n := f.Name(); (n == "Unlock" || n == "RUnlock") && f.Pkg != nil && f.Pkg.Pkg.Path() == "sync" {
+			g.oblige(st, "holds-lock", "", "holdslock: the mutex is released only by the deferred unlock", pos, False)
+		}
+	}
 	key := FuncKey(f)
 	if f.Origin() != nil {
 		key = FuncKey(f.Origin())
@@ -617,6 +625,16 @@ func (g *Gen) havocLoc(st *State, sc *SCtx, m Expr) error {
 			}
 			return nil
 		}
+		if id, ok := call.Fun.(*EIdent); ok && id.Name == "fields" && len(call.Args) == 1 && strings.HasPrefix(ExprString(call.Args[0]), "map[") {
+			// fields(map[K]V): every map of that type
+			tn := ExprString(call.Args[0])
+			for _, n := range append([]string{}, g.uniOrder...) {
+				if strings.HasPrefix(n, "M:"+tn+":") {
+					g.heapSet(st, n, g.universe[n], g.fresh("hv:"+n, g.universe[n]))
+				}
+			}
+			return nil
+		}
 		if id, ok := call.Fun.(*EIdent); ok && id.Name == "fields" && len(call.Args) == 1 {
 			// fields(T): any field of any object of struct type T (footprint by type)
 			ty, err := sc.typeByName(ExprString(call.Args[0]))
@@ -842,6 +860,15 @@ func (g *Gen) allowSets(mods []Expr, sc *SCtx, what string) map[string][]allowed
 				}
 				for _, n := range g.uniOrder {
 					if n == "O:"+typeStr(ty) {
+						allow[n] = append(allow[n], allowedLoc{any: true})
+					}
+				}
+				continue
+			}
+			if id, ok := call.Fun.(*EIdent); ok && id.Name == "fields" && len(call.Args) == 1 && strings.HasPrefix(ExprString(call.Args[0]), "map[") {
+				tn := ExprString(call.Args[0])
+				for _, n := range g.uniOrder {
+					if strings.HasPrefix(n, "M:"+tn+":") {
 						allow[n] = append(allow[n], allowedLoc{any: true})
 					}
 				}
